@@ -264,7 +264,8 @@ func (ps *H265RawSTRefPicSet) decode(r *bits.Reader, st_rps_idx uint8, sps *H265
 
 		ps.Delta_rps_sign = r.ReadBit()
 		ps.Abs_delta_rps_minus1 = r.ReadUe16()
-		delta_rps = int((1 - 2*ps.Delta_rps_sign)) * int(ps.Abs_delta_rps_minus1+1)
+		// 先转成 int 再计算：uint8 的 1-2*1 是 255，不是 -1
+		delta_rps = (1 - 2*int(ps.Delta_rps_sign)) * (int(ps.Abs_delta_rps_minus1) + 1)
 
 		num_ref_pics = 0
 		for j := 0; j <= int(num_delta_pocs); j++ {
